@@ -31,6 +31,14 @@ Theorem avro_decode_encode : forall (bk : nat) (s : schema) (d : datum) (rest : 
 Proof. exact decode_encode. Qed.
 Print Assumptions avro_decode_encode.
 
+(* the same for the second block form of the format, a negative count followed by the byte size of the block
+   (which a reader may use to skip the block): the sizes written must fit an i64 *)
+Theorem avro_decode_encode_sized : forall (bk : nat) (s : schema) (d : datum) (rest : list N), wf s d ->
+  (Z.of_nat (length (encode bk true s d)) < 2^63)%Z ->
+  decode s (encode bk true s d ++ rest) = Some (d, rest).
+Proof. exact decode_encode_sized. Qed.
+Print Assumptions avro_decode_encode_sized.
+
 Theorem avro_decode_encode_writer : forall (s : schema) (d : datum), wf s d ->
   decode s (encode_w s d) = Some (d, []).
 Proof. exact decode_encode_writer. Qed.
